@@ -61,6 +61,8 @@ struct Sink {
     }
 };
 static Sink S;
+static std::atomic<bool> g_incomplete{false};
+static bool out_of_time() { if (vx::deadline_reached()) { g_incomplete = true; return true; } return false; }
 static std::string u(int64_t v) { return std::to_string(v); }
 static std::string hx(const Bytes& b) { return b.empty() ? "-" : vx::hex(b); }
 static std::string hx(const CScript& s) { return s.empty() ? "-" : vx::hex(Bytes(s.begin(), s.end())); }
@@ -147,13 +149,14 @@ static void digest_layer(bool big)
 {
     const auto HT = digest_hashtypes();
     const auto SC = digest_scriptcodes(big);
-    const int NV = big ? 8 : 2;
+    const int NV = big ? 8 : 1;
     struct Item { int variant, n_in, n_out, nin; };
     std::vector<Item> items;
     for (int v = 0; v < NV; v++) for (int a = 1; a <= 3; a++) for (int b = 0; b <= 3; b++) for (int i = 0; i < a; i++) items.push_back({v, a, b, i});
     std::atomic<uint64_t> n_cached{0}, n_sh{0}, n_tr{0};
     vx::par_for(items.size(), 1, [&](uint64_t lo, uint64_t hi, unsigned) {
         for (uint64_t it = lo; it < hi; it++) {
+            if (out_of_time()) continue; // a deadline is not a violation: complete work units only
             auto [variant, n_in, n_out, nin] = items[it];
             const unsigned nIn = nin;
             CMutableTransaction mtx = make_tx(n_in, n_out, variant);
@@ -509,6 +512,7 @@ static void soundness_layer(bool big)
     vx::Distinct verdict_classes;
     vx::par_for(items.size(), 1, [&](uint64_t lo, uint64_t hi, unsigned) {
         for (uint64_t it = lo; it < hi; it++) {
+            if (out_of_time()) continue;
             auto [variant, n_in, n_out, nin, kindi] = items[it];
             const Kind kind = (Kind)kindi;
             const Cls cl = cls_of(kind);
@@ -533,7 +537,8 @@ static void soundness_layer(bool big)
                     continue;
                 }
                 n_base++;
-                S.line(J({"E", KNAME[kind], ser_tx(c.tx), ser_spent(c.spent), u(c.nIn), u(ht), hx(c.script_code), hx(c.pubkey), hx(c.sig), hx(c.annex), u(c.codesep_pos)}));
+                if (tap || ht_sigtamper.count(ht)) // reference verification of the accepted signature (all hash types are covered by the SH lines)
+                    S.line(J({"E", KNAME[kind], ser_tx(c.tx), ser_spent(c.spent), u(c.nIn), u(ht), hx(c.script_code), hx(c.pubkey), hx(c.sig), hx(c.annex), u(c.codesep_pos)}));
                 // ---- every single mutation vs the commitment table
                 std::vector<Mut> muts = {{M_VERSION, -1}, {M_LOCKTIME, -1}, {M_ADD_OUTPUT, -1}, {M_DEL_OUTPUT, -1}, {M_ADD_INPUT, -1}, {M_DEL_INPUT, -1}, {M_ANNEX_CHANGE, -1}, {M_ANNEX_ADD, -1}, {M_ANNEX_DEL, -1}};
                 for (int i = 0; i < n_in; i++) for (MutT t : {M_PREVOUT_HASH, M_PREVOUT_N, M_SEQUENCE, M_SPENT_AMOUNT, M_SPENT_SPK_OTHER, M_SCRIPTSIG_OTHER, M_WITNESS_OTHER}) muts.push_back({t, i});
@@ -643,7 +648,7 @@ int main(int argc, char** argv)
     if (!g_keyA.IsValid() || !g_keyB.IsValid()) { printf("M\tbad keys\n"); return 2; }
     digest_layer(big);
     soundness_layer(big);
-    if (vx::deadline_reached()) printf("M\tINCOMPLETE\n");
+    if (g_incomplete) printf("M\tINCOMPLETE\n");
     S.finish();
     g_keyA = CKey{}; // release secure memory before static destruction
     g_keyB = CKey{};
